@@ -28,7 +28,6 @@ static long ent[MAXP][MAXW][MAXL], ext_[MAXP][MAXW][MAXL]; static int cnt[MAXP][
 static int g_n;
 static int cb_count; static long cb_stamp; static int cb_in_add; static volatile int in_add;
 static vdc_t *g_A;
-static parsec_context_t *g_parsec = NULL;
 static int idle_selects = 0;
 
 void vt_enter(int p, int w, int k) { long s = wr_stamp(); if (p < MAXP && w < MAXW && k < MAXL) { ent[p][w][k] = s; __sync_add_and_fetch(&cnt[p][w][k], 1); } }
@@ -157,7 +156,7 @@ typedef struct { int bounded; int maxdev; } leg_arg_t;
 static void leg_orders(int slice, int nslices, void *arg_)
 {
     leg_arg_t *arg = (leg_arg_t *)arg_;
-    parsec_context_t *parsec = g_parsec ? g_parsec : init_ctx(1, NULL);   /* g_parsec: initialised once by the parent and inherited */
+    parsec_context_t *parsec = init_ctx(1, NULL);
     hs_install(parsec); hs_module.module.select = c15_select;
     hs_explorer_t *ex = (hs_explorer_t *)malloc(sizeof(*ex));
     int idx = 0; cfg_t c; memset(&c, 0, sizeof(c)); c.threads = 1;
@@ -250,13 +249,16 @@ int main(int argc, char **argv)
     if (wr_replay_file) {
         static char scen[128], cas[WR_CASELEN];
         if (wr_read_replay(wr_replay_file, scen, sizeof(scen), cas, sizeof(cas))) { fprintf(stderr, "cannot read replay file\n"); return 2; }
-        wr_run_legs("replay", 1, leg_replay, cas, 30, NULL);
+        wr_run_legs("replay", 1, leg_replay, cas, 60, NULL);
         return wr_finish();
     }
     leg_arg_t a1 = { 0, -1 }, a2 = { 1, wr_thorough ? 2 : 1 };
-    if (!only || !strcmp(only, "threads")) wr_run_legs("threads", 9, leg_threads, NULL, 240, aux);
-    g_parsec = init_ctx(1, NULL);      /* once, in the parent: the forked hsched workers inherit the one-stream context */
+    /* deciding legs first (80% of the time budget), free-running configuration box last */
+    double full_deadline = wr_deadline;
+    if (full_deadline > 0 && !only) wr_deadline = full_deadline - 0.2 * (full_deadline - wr_now());
     if (!only || !strcmp(only, "bounded")) wr_run_legs("bounded", jobs > 6 ? 6 : jobs, leg_orders, &a2, 600, aux);
     if (!only || !strcmp(only, "orders")) wr_run_legs("orders", jobs, leg_orders, &a1, 600, aux);
+    wr_deadline = full_deadline;
+    if (!only || !strcmp(only, "threads")) wr_run_legs("threads", 9, leg_threads, NULL, 240, aux);
     return wr_finish();
 }
